@@ -34,6 +34,11 @@ ASSUMPTIONS = [
     'the device is the Lean reference device (Spec/SelDevice.lean): CAh for what it does not serve, C5h for a lost '
     'reservation, reservation checked on Get SEL Entry when one is given or the offset is not 0, always on delete',
     'a concurrent log change is a scripted event applied before a request; the real wall clock plays no role',
+    'a device that TRUNCATES a partial read ("completed" with fewer bytes than asked for, at least one) instead of refusing it '
+    'with CAh is not the reference device: Props.C12.truncating_device_read_exactly proves the read exact on the scripted '
+    'device of Model/SelScript.lean (any sequence of sizes >= 1), and C13 runs the real get_sel_entry / get_and_clear_sel_entry '
+    'against that device (letters S<k>; outcome, requests and returned record compared with the model, "a result is the '
+    'stored record" judged).  An answer without any record byte cannot complete a read: C13 (RetryError, bounded)',
     'partial-read limit 0 (the device refuses every length) is outside the property; it is generated for the '
     'correspondence with the model only (max_req_len is a Python int in the model too: 0, -1 ... as shipped)',
     'termination of the two loops of pyipmi/sel.py under a device that refuses / cancels for ever is C13\'s clause '
